@@ -126,3 +126,20 @@ func (b *box) GoodUpgrade(k string) int {
 	b.items[k] = 1
 	return 1
 }
+
+var errBusy = errors.New("busy")
+
+// BadErrorExitAmongSeveral: three exits — an early error without the lock, an
+// error exit that keeps it, and the success exit that released it.
+func (b *box) BadErrorExitAmongSeveral(k string) error {
+	if k == "" {
+		return errBusy
+	}
+	b.lock.Lock()
+	if b.closed {
+		return errClosed
+	}
+	b.items[k]++
+	b.lock.Unlock()
+	return nil
+}
